@@ -1,4 +1,4 @@
-// audit-d, C06 — REPAIRED by /repo fix add6c27 (ops with regions are immovable for get_scoped_setup_inputs).
+// audit-d, C06 — REPAIRED by /repo fix 09d2c36 (ops with regions are immovable for get_scoped_setup_inputs).
 // Before the fix: BlockLevelSetupAwaitOverlapPattern moved a side-effect-free scf.if (part of the setup's input
 // closure: get_scoped_setup_inputs follows only the *operands* of an op, not the values its regions capture)
 // above the definition of %c, which the region captures.  Result: %r = scf.if ... { scf.yield %c } sits
